@@ -51,7 +51,12 @@ def mutations(pdu: bytes, r: random.Random, full: bool) -> List[Tuple[str, bytes
     out: List[Tuple[str, bytes]] = []
     for k in range(len(pdu)):
         out.append(("prefix", pdu[:k]))
-    positions = range(len(pdu)) if full or len(pdu) <= 24 else sorted(r.sample(range(len(pdu)), 24))
+    if full or len(pdu) <= 24:
+        positions: Any = range(len(pdu))
+    else:
+        # a sample of the positions, and every byte that may be a terminator or an end marker
+        marks = [i for i, b in enumerate(pdu) if b in (0x00, 0xFF)][:64]
+        positions = sorted(set(r.sample(range(len(pdu)), 24)) | set(marks))
     for i in positions:
         for v in (0x00, 0x01, 0x7F, 0x80, 0xFF, (pdu[i] + 1) & 0xFF):
             if v != pdu[i]:
@@ -118,16 +123,25 @@ def run_layer(task: Tuple, col: common.Collector) -> None:
         else:
             assigns = codeccompose.assignments(rq, model, r, n=2 if not full else 6)
         seeds: List[bytes] = []
-        for vals in assigns:
-            k, e = codecrun.ref_encode(ll.ref, rq, vals)
-            if k == "ok":
-                seeds.append(e.pdu)
-            else:
-                o = codecrun.encode(obj, vals)
-                if o.ok:
-                    seeds.append(o.value)
+        want = (6 if model["name"] == "probes" else 3) if not full else 8
+        for attempt in range(5):
+            for vals in assigns:
+                k, e = codecrun.ref_encode(ll.ref, rq, vals)
+                if k == "ok":
+                    seeds.append(e.pdu)
+                else:
+                    o = codecrun.encode(obj, vals)
+                    if o.ok:
+                        seeds.append(o.value)
+            if mode == "grid" or len(seeds) >= min(want, 3):
+                break
+            # (most assignments of this message cannot be represented - e.g. items that have to
+            # fit a fixed size: draw again rather than start from one or two PDUs)
+            assigns = codeccompose.assignments(rq, model, r, n=6)
+            col.count("messages-with-extra-assignments")
         blobs: List[Tuple[str, bytes]] = []
-        for s in seeds[:3 if not full else 8]:
+        # (one message per construct in the probe layer: all of its valid PDUs are starting points)
+        for s in seeds[:want]:
             blobs.append(("valid", s))
             blobs += mutations(s, r, full)
         for _ in range(4 if not full else 20):
